@@ -92,6 +92,9 @@ def sampleLoop (n : Nat) : Nat → Bytes → Res (List Nalu)
     if b.length < n then err .generic else
     let len := ofBE (b.take n)
     let b := b.drop n
+    -- `len(b) < int(length)`: a length of 2^63 or more (only an 8-byte length field can hold one) converts to a
+    -- negative int, passes the test, and `b[:length]` is out of range
+    if 2 ^ 63 ≤ len then .panic else
     if b.length < len then err .generic else
     do
       let nalu ← naluUnmarshal (b.take len)
